@@ -10,7 +10,13 @@ MC_Leads == {
     [text |-> "a-b",   parse |-> "opaque", coef |-> 0,  body |-> ""],
     [text |-> "x*y",   parse |-> "term",   coef |-> 1,  body |-> "x*y"],
     [text |-> "a*b",   parse |-> "term",   coef |-> 1,  body |-> "a*b"],
-    [text |-> "(x-y)", parse |-> "opaque", coef |-> 0,  body |-> ""] }
+    [text |-> "(x-y)", parse |-> "opaque", coef |-> 0,  body |-> ""],
+    \* leading expressions whose last sign is a unary sign bound to the operator before it, or a binary one in
+    \* front of a name that is added again later
+    [text |-> "x*-y",  parse |-> "opaque", coef |-> 0,  body |-> ""],
+    [text |-> "x/-y",  parse |-> "opaque", coef |-> 0,  body |-> ""],
+    [text |-> "x--y",  parse |-> "opaque", coef |-> 0,  body |-> ""],
+    [text |-> "a-y",   parse |-> "opaque", coef |-> 0,  body |-> ""] }
 
 MC_Bodies == {"x", "y", "x*y", "x/y", "2"}
 \* every accepted two-factor shape: name*name, name/name, number*name, number/name, name/number, name*number
